@@ -18,6 +18,8 @@
 (*   ann[x]  : Int (a token stored in the object's annotation container)   *)
 (*   xcols, xrows : names of user-added variables / constraints            *)
 (*   solver  : "glpk" | "glpk_exact"                                       *)
+(*   tol     : k for model.tolerance = 10^-k (feasibility and integrality  *)
+(*             tolerance of the solver; kept by copies and solver switches)*)
 (* A state St has up to two model slots (copies, merges) and per slot the  *)
 (* stack of context snapshots:  St = [m : slot -> C or NoModel,            *)
 (*                                    ctx : slot -> Seq(C)].               *)
@@ -103,7 +105,8 @@ EmptyContent(solver) ==
    \* plain attributes as tokens: name (all objects), formula and charge (metabolites; charge 99 = None),
    \* subsystem (reactions); 0 = the default the driver creates objects with
    attr |-> [x \in AllIds |-> [name |-> 0, formula |-> 0, charge |-> 99, subsys |-> 0]],
-   xcols |-> {}, xrows |-> {}, solver |-> solver]
+   xcols |-> {}, xrows |-> {}, solver |-> solver,
+   tol |-> 7]          \* model.tolerance = 10^-tol (Configuration().tolerance = 1e-7)
 NoModel == [none |-> TRUE]
 NoDet == [present |-> FALSE, st |-> [m \in {} |-> 0], lb |-> 0, ub |-> 0, rule |-> [k |-> "none", id |-> "", ch |-> <<>>],
           sbo |-> "none", ann |-> 0, note |-> 0, attr |-> [name |-> 0, formula |-> 0, charge |-> 99, subsys |-> 0]]
@@ -384,6 +387,7 @@ MediumOf(C) ==
                  ELSE Missing]
 
 A_SwitchSolver(C, s) == Ok([C EXCEPT !.solver = s])
+A_SetTolerance(C, k) == Ok([C EXCEPT !.tol = k])
 A_AddUserCons(C, name) == IF name \in C.xrows THEN FailLoose(C, "skip") ELSE Ok([C EXCEPT !.xrows = @ \cup {name}])
 A_AddUserVar(C, name) == IF name \in C.xcols THEN FailLoose(C, "skip") ELSE Ok([C EXCEPT !.xcols = @ \cup {name}])
 A_RemoveUserCons(C, name) == IF name \notin C.xrows THEN FailLoose(C, "skip") ELSE Ok([C EXCEPT !.xrows = @ \ {name}])
@@ -416,7 +420,7 @@ FmtFamily(fmt) ==
 A_RoundTrip(C, fmt) ==
   LET fam == FmtFamily(fmt) IN
   IF fam = "pickle" THEN Ok(C)
-  ELSE Ok([C EXCEPT !.solver = "glpk", !.xcols = {}, !.xrows = {},
+  ELSE Ok([C EXCEPT !.solver = "glpk", !.xcols = {}, !.xrows = {}, !.tol = 7,
                     !.func = [g \in GeneU |-> TRUE],
                     !.groups = IF fam = "sbml" THEN @ ELSE {},
                     \* subsystems are not among what C10 lists for SBML (-1 = not compared)
@@ -474,6 +478,7 @@ ContentOp(op, C) ==
     [] op.a = "SetDirection"       -> A_SetDirection(C, op.dir)
     [] op.a = "SetMedium"          -> A_SetMedium(C, op.d)
     [] op.a = "SwitchSolver"       -> A_SwitchSolver(C, op.solver)
+    [] op.a = "SetTolerance"       -> A_SetTolerance(C, op.k)
     [] op.a = "AddUserCons"        -> A_AddUserCons(C, op.name)
     [] op.a = "AddUserVar"         -> A_AddUserVar(C, op.name)
     [] op.a = "RemoveUserCons"     -> A_RemoveUserCons(C, op.name)
@@ -504,10 +509,11 @@ ContentActions == {"AddMetabolites", "RemoveMetabolites", "AddReactions", "Remov
                    "RxnAddMetabolites", "RxnSubtractMetabolites", "RxnIMul", "RxnIAdd", "RxnISub", "SetLB", "SetUB",
                    "SetBounds", "RxnKnockOut", "SetRule", "GeneKnockOut", "KnockOutModelGenes", "RemoveGenes",
                    "RenameGene", "RenameReaction", "RenameMetabolite", "SetObjective", "SetObjCoef", "SetDirection",
-                   "SetMedium", "SwitchSolver", "AddUserCons", "AddUserVar", "RemoveUserCons", "RemoveUserVar",
+                   "SetMedium", "SwitchSolver", "SetTolerance", "AddUserCons", "AddUserVar", "RemoveUserCons", "RemoveUserVar",
                    "AddGroup", "RemoveGroup", "Annotate", "SetAttr", "Analyze", "RoundTrip", "GetMedium", "Init", "DetachedSetBounds", "RxnArith", "BuildFromString", "SetFunctional", "Repair", "FixObjective"}
 \* operations that the documentation does NOT declare reversible inside `with model:`
-NotContextAware == {"AddGroup", "RemoveGroup", "Annotate", "SetAttr", "RenameReaction", "RenameMetabolite", "DetachedSetBounds"}
+NotContextAware == {"AddGroup", "RemoveGroup", "Annotate", "SetAttr", "RenameReaction", "RenameMetabolite", "DetachedSetBounds",
+                    "SetTolerance"}
 
 \* left.merge(right, inplace=True, objective="left"): the reactions of right whose ids are new to left are added
 \* (as copies, with their metabolites and genes); user-added variables/constraints of right are copied by name;
